@@ -17,10 +17,20 @@ def plans(tier, opts):
                      depth=int(opts['depth']))]
     if tier == 'quick':
         return [dict(nsess=2, depth=3),
+                dict(nsess=2, depth=3, predeleted=True, idle=False,
+                     cmds=['EXPUNGE', 'UIDEXPUNGE101', 'STORE1+Del', 'NOOP',
+                           'FETCHall', 'APPEND', 'STORE*-Del', 'MOVE1-Other',
+                           'UIDSTORE102+Seen', 'STORE3Flagged']),
                 dict(nsess=2, depth=4, idle=False,
                      cmds=['STORE1+Del', 'EXPUNGE', 'APPEND', 'MOVE1-Other',
                            'FETCHall', 'UIDFETCH1:*', 'NOOP', 'UIDSTORE102+Seen'])]
     return [dict(nsess=2, depth=4),
+            dict(nsess=2, depth=4, predeleted=True, idle=False,
+                 cmds=['EXPUNGE', 'UIDEXPUNGE101', 'STORE1+Del', 'NOOP',
+                       'FETCHall', 'APPEND', 'STORE*-Del', 'MOVE1-Other',
+                       'UIDSTORE102+Seen', 'STORE3Flagged']),
+            dict(nsess=3, depth=3, predeleted=True, idle=False,
+                 cmds=['EXPUNGE', 'UIDEXPUNGE101', 'NOOP', 'STORE1+Del']),
             dict(nsess=2, depth=5, idle=False,
                  cmds=['STORE1+Del', 'EXPUNGE', 'APPEND', 'MOVE1-Other',
                        'FETCHall', 'UIDFETCH1:*', 'NOOP', 'UIDSTORE102+Seen',
@@ -44,6 +54,7 @@ def run(*, tier, seed, jobs, progress, opts, prop=PROP, oracle=ORACLE,
             raise RuntimeError('harness error during exploration')
         c = res.coverage(m)
         cov['plans'].append({'sessions': m.nsess, 'observer': m.observer,
+                             'start_with_two_deleted': m.predeleted,
                              'depth': depth,
                              'alphabet': sorted({e['name'] for e in m.alphabet()}),
                              **{k: c[k] for k in (
